@@ -309,6 +309,35 @@ var Scenarios = []Directed{
 		s.End()
 		s.Blocks(6, allHdr)
 	}},
+	{"evidence_after_close", []string{"C15", "C14"}, fam(2), func(s *Script) {
+		// powers 5,8,10,12,20 (total 55, threshold 36, slash ratio 34 %): evidence against a voter arrives in the block
+		// AFTER the window closed, before the proposals are settled. A: 35 of 55 at the close (one short), the slashing of
+		// a silent voter lowers the threshold below 35. B: 37 of 55 at the close, the slashing of a yes-voter pushes the
+		// tally below the (lowered) threshold. What counts is the tally when voting closed.
+		s.Blocks(3, allHdr)
+		s.Begin(allHdr) // 4
+		s.expect(OK(s.Propose(5, 6, 2, 11, `{"lazyRewardBlocks":"5"}`)), "proposal A")
+		s.expect(OK(s.Propose(4, 6, 2, 11, `{"minTrxGas":"20"}`)), "proposal B")
+		s.End()
+		p := s.Proposals()
+		if len(p) != 2 {
+			s.expect(false, "two proposals in voting")
+			return
+		}
+		s.Blocks(1, allHdr)
+		s.Begin(allHdr)    // 6
+		s.Vote(5, p[0], 0) // A: 20 + 10 + 5 = 35
+		s.Vote(3, p[0], 0)
+		s.Vote(1, p[0], 0)
+		s.Vote(5, p[1], 0) // B: 20 + 12 + 5 = 37
+		s.Vote(4, p[1], 0)
+		s.Vote(1, p[1], 0)
+		s.End()
+		s.Blocks(2, allHdr)                 // 7, 8 = end of the window
+		s.Begin(Hdr{Evidence: []int{4}}) // 9: a4 (silent on A, yes on B) is slashed after the close: 55 -> 51, threshold 34
+		s.End()
+		s.Blocks(6, allHdr)
+	}},
 	{"two_proposals_one_block", []string{"C15", "C16"}, fam(0), func(s *Script) {
 		s.Blocks(3, allHdr)
 		s.Begin(allHdr)
